@@ -566,11 +566,14 @@ def generated_documents(ctx, g, pool, ndocs):
             if rng.random() < 0.4:
                 k = g.unknown_key()
                 items.append((k, TB.TaggedBlock(key=k, data=g.blob())))
-            r.tagged_blocks = TB.TaggedBlocks(items)
-            if rng.random() < 0.6:
-                # the pascal name at the limits of its length byte, whatever blocks the record holds (the unicode name among them)
-                n = rng.choice([255, 255, 254, 1, 0])
+            # the pascal name at the limits of its length byte (255, 254, 1, 0 in turn, then whatever the generator chose), and - as in
+            # every file Photoshop writes - the unicode name block next to it in most records
+            n = [255, 254, 1, 0, None][(i + len(out) + li.layer_records.index(r)) % 5]
+            if n is not None:
                 r.name = "".join(rng.choice("abcXYZ 019_-") for _ in range(n))
+            if not any(k == b"luni" for k, _ in items) and (i + li.layer_records.index(r)) % 4 != 3:
+                items.append((b"luni", TB.TaggedBlock(key=b"luni", data=TB.StringElement(r.name))))
+            r.tagged_blocks = TB.TaggedBlocks(items)
         items = []
         for k in doc_keys:
             x = payload_for_key(g, pool, k, version, depth=2 if i % 3 == 0 else 1)
@@ -1124,6 +1127,16 @@ def _run(ctx):
         "together carry every registered key at layer level and at document level incl. Lr16 / Lr32 with nested typed records, PSD and PSB, padding "
         "1/2/4, five name encodings; every fixture (quick: a seeded sample of 14 below 40 kB, padding 4; thorough: all, padding 1/2/4 below 150 kB and 4 above) re-written and re-read with every registry entry "
         "active, and read from its original bytes; 5-12 truncations / overwrites at the offsets of block signatures of up to 80 written files (per group: generated, fixtures).")
+    ctx.assumptions[:] = [a.replace(
+        "the payload classes listed under model_coverage as opaque (engine data, ...) are opaque bytes in the model: searched with Python's == "
+        "(every fixture instance + variants), not proved",
+        "every class registered in tagged_blocks.TYPES and image_resources.TYPES is typed in the model (Props/C01Typed.lean); the classes still listed "
+        "under model_coverage as opaque are base classes without an on-disk form of their own, searched with Python's ==") for a in ctx.assumptions]
+    ctx.notes[:] = [n.replace(
+        "Stated in DESIGN, not proved here: codec laws of engine data (C18) and the element-typed composition of image resources / adjustment "
+        "blocks into whole documents; see model_coverage.",
+        "The element-typed composition of image resources, of every registered tagged-block class and of engine data into whole documents is proved "
+        "in Props/C01Typed.lean (psd_roundtrip_typed).") for n in ctx.notes]
     ctx.extra["typed_phase_seconds"] = round(time.time() - t0, 1)
     if ctx.tier == "thorough":
         prev = ctx.extra.get("leanchecker")
